@@ -9,8 +9,10 @@ CONSTANTS
   NVals <- GenNVals
   UVals <- GenUVals
   Presentations <- GenPres
+  ForeignForms <- BaseForms
+  EntityForms <- BaseEntForms
   Starts <- StartsBase
   MaxLen = 3
   MaxSigns = 3
-INVARIANTS TypeOK Complete CompleteNet Sound SoundTamper OneKey SignPreserves UncoveredFree EditsKeepSignatures 
+INVARIANTS TypeOK Complete CompleteNet Sound SoundTamper OneKey SignPreserves UncoveredFree EditsKeepSignatures ForeignEntryLocal ForeignEntityLocal FormsIrrelevant
 CHECK_DEADLOCK FALSE
